@@ -112,7 +112,7 @@ func modelHandleFunc(x *Exec, fr *Frame, st *State, pc *preparedCall, k func(*St
 		}
 		if rp, ok := r.(PtrV); ok {
 			st2.assumeRaw(Gt(rp.Addr, IntLit(0)))
-			st2.assumeRaw(Select(st2.alloc, rp.Addr))
+			st2.assumeRaw(allocAt(st2.alloc, rp.Addr))
 		}
 		pre := st2.clone()
 		npc := &preparedCall{e: pc.e, closure: h.Closure, args: []Value{w, r}}
